@@ -115,6 +115,7 @@ func (e *Env) beginStep(p Plan, precheck ...string) {
 	e.served = Served{}
 	e.effects = nil
 	e.effJSON = nil
+	e.sentLog = nil
 	e.precheck = map[string]bool{}
 	for _, k := range precheck {
 		e.precheck[k] = true
@@ -227,6 +228,7 @@ func (m *fakeMessenger) SendMessage(peerId string, msg []byte, msgType int) erro
 	}
 	e.served.Send = append(e.served.Send, ok)
 	m.Sent = append(m.Sent, sentMsg{peerId, msgType, append([]byte{}, msg...)})
+	e.sentLog = append(e.sentLog, sentMsg{peerId, msgType, append([]byte{}, msg...)})
 	e.mu.Unlock()
 	e.effect(fmt.Sprintf("ESend %s %s", CoqStr(peerId), coqWire(msg, msgType)),
 		map[string]interface{}{"e": "Send", "peer": peerId, "type": msgType, "ok": ok})
